@@ -321,6 +321,12 @@ func (s *JointFeldmanState) ForceDisqualify(participant int) error {
 	if !s.jointRunning {
 		return dkgInvalidStateTransitionErrorf("dkg is not running")
 	}
+	// check the index before using it to select the fvss instance
+	if participant >= s.Size() || participant < 0 {
+		return invalidInputsErrorf(
+			"invalid origin input, should be less than %d, got %d",
+			s.Size(), participant)
+	}
 	// disqualify the participant in the fvss instance where they are a dealer
 	err := s.fvss[participant].ForceDisqualify(participant)
 	if err != nil {
